@@ -3,11 +3,15 @@ import gen
 
 ID = "C01"
 LEVEL = "proof"
-MODULES = ["H3Proofs.Props.C01"]
-THEOREMS = ["H3.C01.isValidCell_eq_layout", "H3.C01.isValidCell_defined_all", "H3.C01.pentBC_eq_table"]
+MODULES = ["H3Proofs.Props.C01", "H3Proofs.Props.C05Valid2"]
+THEOREMS = ["H3.C01.isValidCell_eq_layout", "H3.C01.isValidCell_defined_all", "H3.C01.pentBC_eq_table",
+            "H3.C05V.h3NeighborRotations_layout", "H3.C05V.walk_valid"]
 BV_DECIDE_THEOREMS = ["H3.C01.isValidCell_eq_layout", "H3.C01.isValidCell_defined_all"]
-NOT_PROVED = ["closure clause for functions outside the proved hierarchy/traversal theorems is a runtime monitor "
-              "(every cell the driver prints is passed through the proved-equal isValidCell), not a theorem"]
+NOT_PROVED = ["closure clause: theorems for the hierarchy functions (C04/C13 modules), for every neighbour step and "
+              "everything the safe disk writes (C05Valid2), for compactCells/uncompactCells (C06 modules); for the "
+              "remaining cell-returning functions (latLngToCell, localIjToCell, gridPathCells, polygon fill, edges, "
+              "vertexes) it is a runtime monitor: every cell those API calls return in the closure sweep is passed "
+              "through the documented layout"]
 ASSUMPTIONS = ["Gen.Bits.isValidCell is the c2lean translation of the C text (validated differentially here, "
                "helper by helper)", "bv_decide's LRAT checker (one native axiom per bv_decide theorem)"]
 EXPLANATION = ("isValidCell generated from C equals the hand-written documentation-level layoutSpec for all 2^64 "
